@@ -9,6 +9,7 @@ import concfam
 import scfam
 import tempfam
 import tevalfam
+import interpfam
 from vlib import InfraError
 
 CHECKS = {}
@@ -27,6 +28,8 @@ def replay(ctx, path):
     fam = obj.get("replay_family", "eval")
     if fam == "eval":
         return evalfam.replay(ctx, obj)
+    if fam == "interp":
+        return interpfam.replay(ctx, obj)
     if fam == "teval":
         return tevalfam.replay(ctx, obj)
     if fam == "tstore":
@@ -100,3 +103,8 @@ def c13(ctx):
 @register("C14")
 def c14(ctx):
     return tevalfam.check_c14(ctx)
+
+
+@register("C16")
+def c16(ctx):
+    return interpfam.check_c16(ctx)
